@@ -19,14 +19,29 @@ def pMethod : P String := do
   if t.startsWith "m:" then pure (t.drop 2).toString else failure
 def pBool : P Bool := do let n ← pNat; if n = 0 then pure false else if n = 1 then pure true else failure
 
+/-- one call of a history in one process: `F<n>` = `Factorial(n)`, `B<n>:<k>` = `Binomial_Coefficient(n,k)` -/
+def pItem : P G := do
+  let t ← tok
+  if t.startsWith "F" then
+    match (t.drop 1).toString.toNat? with
+    | some n => pure (factorialGuard n)
+    | none => failure
+  else if t.startsWith "B" then
+    match (t.drop 1).toString.splitOn ":" with
+    | [a, b] => match a.toInt?, b.toInt? with
+      | some n, some k => pure (binomialGuard n k)
+      | _, _ => failure
+    | _ => failure
+  else failure
+
 def ones (n : Nat) : List Rat := List.replicate n 1
 def p2 : P (Nat × Nat) := do let a ← pNat; let b ← pNat; pure (a, b)
 def p3 : P (Nat × Nat × Nat) := do let a ← pNat; let b ← pNat; let c ← pNat; pure (a, b, c)
 def p4 : P (Nat × Nat × Nat × Nat) := do let a ← pNat; let b ← pNat; let c ← pNat; let d ← pNat; pure (a, b, c, d)
 
 /-- a fresh `Interpolation` object on `xs` (function values do not matter for the guards) -/
-def withObj (xs : List Rat) (k : Interp.Obj → String) : String :=
-  match Interp.mk xs (xs.map fun _ => 0) (-1) (-1) with
+def withObj (xs : List Rat) (xd fd : Rat) (k : Interp.Obj → String) : String :=
+  match Interp.mk xs (xs.map fun _ => 0) xd fd with
   | .ok o => k o
   | .error _ => "err"
 
@@ -60,29 +75,30 @@ def handle : Handler := fun op args =>
       ans (inverseGuard r c (if r = c then detAsCoded m else 0))
   | "c10.rot" => withArgs (do let d ← pInt; let n ← pNat; pure (d, n)) args fun (d, n) => ans (rotationGuard d n) (rotationReads d (ones n))
   -- 3. Interpolation
-  | "c10.interp.ctor" => withArgs (do let xs ← pRats; let ys ← pRats; pure (xs, ys)) args fun (xs, ys) => ans (interpCtorGuard xs ys (-1) (-1))
-  | "c10.interp.table" => withArgs (pList pRats) args fun t => ans (interpTableGuard t (-1) (-1))
-  | "c10.interp.locate" | "c10.interp.eval" => withArgs (do let xs ← pRats; let v ← pRat; pure (xs, v)) args fun (xs, v) =>
-      withObj xs fun o =>
+  | "c10.interp.ctor" => withArgs (do let xs ← pRats; let ys ← pRats; let xd ← pRat; let fd ← pRat; pure (xs, ys, xd, fd)) args fun (xs, ys, xd, fd) => ans (interpCtorGuard xs ys xd fd)
+  | "c10.interp.table" => withArgs (do let t ← pList pRats; let xd ← pRat; let fd ← pRat; pure (t, xd, fd)) args fun (t, xd, fd) => ans (interpTableGuard t xd fd)
+  | "c10.interp.locate" | "c10.interp.eval" => withArgs (do let xs ← pRats; let xd ← pRat; let fd ← pRat; let v ← pRat; pure (xs, xd, fd, v)) args fun (xs, xd, fd, v) =>
+      withObj xs xd fd fun o =>
         match Interp.locate o.N o.x o.st v with
         | .ok (j, _) => ans (locateGuard o.N o.x o.st v) (interpolateReads o.N j)
         | .error _ => ans (locateGuard o.N o.x o.st v)
-  | "c10.interp.deriv" => withArgs (do let xs ← pRats; let v ← pRat; let k ← pNat; pure (xs, v, k)) args fun (xs, v, _k) =>
-      withObj xs fun o =>
+  | "c10.interp.deriv" => withArgs (do let xs ← pRats; let xd ← pRat; let fd ← pRat; let v ← pRat; let k ← pNat; pure (xs, xd, fd, v, k)) args fun (xs, xd, fd, v, _k) =>
+      withObj xs xd fd fun o =>
         match Interp.locate o.N o.x o.st v with
         | .ok (j, _) => ans (locateGuard o.N o.x o.st v) (interpolateReads o.N j)
         | .error _ => ans (locateGuard o.N o.x o.st v)
-  | "c10.interp.hist" => withArgs (do let xs ← pRats; let vs ← pRats; pure (xs, vs)) args fun (xs, vs) =>
-      withObj xs fun o => ans (historyGuard o.N o.x o.st vs)
-  | "c10.interp.integ" => withArgs (do let xs ← pRats; let a ← pRat; let b ← pRat; pure (xs, a, b)) args fun (xs, a, b) =>
-      withObj xs fun o => ans (integrateGuard o.N o.x o.st a b)
-  | "c10.interp.lmin" | "c10.interp.lmax" => withArgs (do let xs ← pRats; let a ← pRat; let b ← pRat; pure (xs, a, b)) args fun (xs, a, b) =>
-      withObj xs fun o => ans (localExtGuard o.N o.x o.st a b)
+  | "c10.interp.hist" => withArgs (do let xs ← pRats; let xd ← pRat; let fd ← pRat; let vs ← pRats; pure (xs, xd, fd, vs)) args fun (xs, xd, fd, vs) =>
+      withObj xs xd fd fun o => ans (historyGuard o.N o.x o.st vs)
+  | "c10.interp.integ" => withArgs (do let xs ← pRats; let xd ← pRat; let fd ← pRat; let a ← pRat; let b ← pRat; pure (xs, xd, fd, a, b)) args fun (xs, xd, fd, a, b) =>
+      withObj xs xd fd fun o => ans (integrateGuard o.N o.x o.st a b)
+  | "c10.interp.lmin" | "c10.interp.lmax" => withArgs (do let xs ← pRats; let xd ← pRat; let fd ← pRat; let a ← pRat; let b ← pRat; pure (xs, xd, fd, a, b)) args fun (xs, xd, fd, a, b) =>
+      withObj xs xd fd fun o => ans (localExtGuard o.N o.x o.st a b)
   | "c10.interp2.ctor" => withArgs (do let xs ← pRats; let ys ← pRats; let lens ← pNats; pure (xs, ys, lens)) args fun (xs, ys, lens) =>
       ans (interp2CtorGuard xs ys (lens.map ones) (-1) (-1) (-1))
   | "c10.interp2.table" => withArgs (pList pRats) args fun t => ans (interp2TableGuard t (-1) (-1) (-1))
-  | "c10.interp2.eval" => withArgs (do let xs ← pRats; let ys ← pRats; let a ← pRat; let b ← pRat; pure (xs, ys, a, b)) args fun (xs, ys, a, b) =>
-      withObj xs fun ox => withObj ys fun oy =>
+  | "c10.interp2.eval" => withArgs (do let xs ← pRats; let ys ← pRats; let xd ← pRat; let yd ← pRat; let a ← pRat; let b ← pRat; pure (xs, ys, xd, yd, a, b)) args fun (xs, ys, xd, yd, a, b) =>
+      -- the 2-D constructor converts the units, then builds the two 1-D index objects from the converted lists
+      withObj xs xd (-1) fun ox => withObj ys yd (-1) fun oy =>
         match Interp.locate ox.N ox.x ox.st a, Interp.locate oy.N oy.x oy.st b with
         | .ok (i, _), .ok (j, _) => ans (interp2EvalGuard ox.N ox.x ox.st oy.N oy.x oy.st a b) (interp2EvalReads ox.N oy.N i j)
         | _, _ => ans (interp2EvalGuard ox.N ox.x ox.st oy.N oy.x oy.st a b)
@@ -92,9 +108,11 @@ def handle : Handler := fun op args =>
   | "c10.integ1" => withArgs (do let m ← pMethod; let a ← pRat; let b ← pRat; pure (m, a, b)) args fun (m, a, b) => ans (integrate1Guard a b m)
   | "c10.integ2" | "c10.integ3" | "c10.integ3s" => withArgs pMethod args fun m => ans (integrateNDGuard m)
   | "c10.integmc" => withArgs pMethod args fun m => ans (integrateMCGuard m)
+  | "c10.integmc.hist" => withArgs (pList pMethod) args fun ms => ans (seqGuard (ms.map integrateMCGuard))
   | "c10.gl" => withArgs p2 args fun (n, m) => ans (gaussLegendreGuard n m) (gaussLegendreReads (ones n) (List.replicate m [1, 1]))
   -- 6. Special functions
   | "c10.factorial" => withArgs pNat args fun n => ans (factorialGuard n)
+  | "c10.factorial.hist" => withArgs (pList pItem) args fun items => ans (seqGuard items)
   | "c10.binom" => withArgs (do let n ← pInt; let k ← pInt; pure (n, k)) args fun (n, k) => ans (binomialGuard n k)
   | "c10.gammaln" => withArgs pRat args fun x => ans (gammaLnGuard x)
   | "c10.gammaq" => withArgs (do let x ← pRat; let a ← pRat; pure (x, a)) args fun (x, a) => ans (gammaQGuard x a)
